@@ -19,27 +19,27 @@ CHECKS = {
         tech="exhaustive pair-universe x operator enumeration against a reference model, plus algebraic laws on the implementation's own outputs"),
     "C15": dict(
         cat="model_checking", ref="4/C15",
-        text="Reference list functions (reverse, uniq, compact, concat, map, first, last, size, join) and order/permutation predicates (sort, sort by key, sort_natural) are compared with the real filters on every array of length <=3 (quick) / <=5 (thorough) over five element alphabets (ints, floats, strings, ints+nil, maps with present/absent/nil key), in every Go representation that can hold it, through each filter and all chains of two; additionally the input array must render unchanged after the filter ran (non-mutation) and every representation must give the []any result.",
+        text="Reference list functions (reverse, uniq, compact, concat, map, first, last, size, join) and order/permutation predicates (sort, sort by key, sort_natural) are compared with the real filters on every array of length <=3 (quick) / <=5 (thorough) over five element alphabets (ints, floats, strings, ints+nil, maps with present/absent/nil key), in every Go representation that can hold it, through each filter and all chains of two, plus a scaled family (25 lengths from 6 to 1000 around powers of two x 5 deterministic patterns, including integers beyond 2^53); additionally the input array must render unchanged after the filter ran (non-mutation) and every representation must give the []any result.",
         note="Reference in mc/props/c15.go + mc/ref. Unspecified: sort order between unlike kinds/nil/maps, stability, ordered YAML maps as array input.",
         tech="exhaustive small-array enumeration x representations x filter pipelines against reference list functions and permutation/order predicates"),
     "C16": dict(
         cat="model_checking", ref="4/C16",
-        text="Rune-based reference string functions and the laws named in the statement (concatenation, case mapping, strip family, replace/remove all vs first, split/join inverse, size/slice/truncate/truncatewords in characters and never lengthening, escape leaves no raw specials, escape_once idempotent, url round trip, non-string receivers act as their printed text, UTF-8 validity) are checked against the real filters on every string of length <=3 (quick) / <=4 (thorough) over a 12-symbol alphabet containing multi-byte characters and HTML/URL specials, with all integer parameters in -3..12 and all string parameters up to length 1/2.",
+        text="Rune-based reference string functions and the laws named in the statement (concatenation, case mapping, strip family, replace/remove all vs first, split/join inverse, size/slice/truncate/truncatewords in characters and never lengthening, escape leaves no raw specials, escape_once idempotent, url round trip, non-string receivers act as their printed text, UTF-8 validity) are checked against the real filters on every string of length <=3 (quick) / <=4 (thorough) over a 12-symbol alphabet containing multi-byte characters and HTML/URL specials, with all integer parameters in -3..12 and all string parameters up to length 1/2; a scaled family repeats every string of <=2 symbols 8..65536 times with slice/truncate at the boundaries of the length.",
         note="Unspecified (no-error + UTF-8 still checked): truncate with n < ellipsis length, truncatewords n < 1, slice out-of-range start / negative length (substring of <= n chars required), empty search pattern, size of a non-string scalar.",
         tech="exhaustive string enumeration over a small alphabet x parameter grid against rune-based reference functions and algebraic laws"),
     "C17": dict(
         cat="model_checking", ref="4/C17",
-        text="Exact rational arithmetic (math/big) is the reference for plus, minus, times, divided_by, modulo, abs, ceil, floor, round over all pairs of a ~110-operand numeric universe (ints -12..12 and boundary magnitudes up to 2^53 as int and float, other widths, quarters, numeric and non-numeric strings, nil), as variables and literals, plus all chains of two and three binary steps over a 7-value universe; results must parse back to the exact value whenever operands and result are float64-representable, whole results print as digits, ceil/floor print integers, division/modulo by zero and non-numeric strings must be errors.",
+        text="Exact rational arithmetic (math/big) is the reference for plus, minus, times, divided_by, modulo, abs, ceil, floor, round over all pairs of a ~110-operand numeric universe (ints -12..12 and boundary magnitudes up to 2^53 as int and float, other widths, quarters, numeric and non-numeric strings, nil), as variables and literals, plus all chains of two and three binary steps over a 7-value universe; results must parse back to the exact value whenever operands and result are float64-representable, whole results print as digits, ceil/floor print integers, division/modulo by zero and non-numeric strings must be errors. Scaled: 2^k and 2^k+-1 (k=20..52), 10^6..10^15 and chains of up to 129 steps.",
         note="Accepted alternatives: floor or truncation for negative integer quotients, either sign convention for modulo. Unspecified: nil operands, numeric strings as arguments.",
         tech="exhaustive operand-pair and operation-chain enumeration against exact rational arithmetic"),
     "C10": dict(
         cat="model_checking", ref="4/C10",
-        text="Reference branch selection (first truthy condition; exactly nil and false falsy) is compared with the real tags on every if/elsif/else chain of 1..4 (quick) / 1..6 (thorough) branches over every vector of a 9-value truthiness universe, with and without else; each condition carries a logging probe so the set and order of evaluated conditions is compared too, and poison variants place a failing filter in every condition after the selected branch. unless, case/when (selection by the implementation's own ==, validated by C09), the if/unless duality over every (pair, operator) of the C09 universe, two-level nestings and conditionals inside loops are enumerated the same way.",
+        text="Reference branch selection (first truthy condition; exactly nil and false falsy) is compared with the real tags on every if/elsif/else chain of 1..4 (quick) / 1..6 (thorough) branches over every vector of a 9-value truthiness universe, with and without else; each condition carries a logging probe so the set and order of evaluated conditions is compared too, and poison variants place a failing filter in every condition after the selected branch. unless, case/when (selection by the implementation's own ==, validated by C09), the if/unless duality over every (pair, operator) of the C09 universe, two-level nestings, conditionals inside loops and chains of 7..60 branches are enumerated the same way.",
         note="Probes are a registered identity filter and logging Drops; unspecified: evaluation of later values inside the selected when clause.",
         tech="exhaustive program enumeration over a truthiness universe against a reference branch selector, with evaluation-order probes"),
     "C11": dict(
         cat="model_checking", ref="4/C11",
-        text="A reference selection function (reverse, skip offset, take limit), the forloop formulas and a small reference interpreter for nested loops are compared with the real for/tablerow/cycle/break/continue on the complete grid length 0..5|7 x offset x limit x reversed x 10 body variants x 5 collection representations x 3 modifier spellings, tablerow x cols, all range endpoint pairs in -3..6, maps of 0..4 entries (multiset of pairs), 14 nothing-selected cases (else must render) and every nested loop program of depth <=2|3 with break/continue at each index and four cycle variants per level.",
+        text="A reference selection function (reverse, skip offset, take limit), the forloop formulas and a small reference interpreter for nested loops are compared with the real for/tablerow/cycle/break/continue on the complete grid length 0..5|7 x offset x limit x reversed x 10 body variants x 5 collection representations x 3 modifier spellings, tablerow x cols, all range endpoint pairs in -3..6, maps of 0..4 entries (multiset of pairs), 14 nothing-selected cases (else must render) every nested loop program of depth <=2|3 with break/continue at each index and four cycle variants per level, and collections of 8..4097 items with offset/limit at the boundaries.",
         note="Unspecified: negative offset/limit, cols: 0, class names of tablerow; cycle counters are per loop execution.",
         tech="exhaustive grid and nested-program enumeration against a reference loop interpreter"),
     "C12": dict(
@@ -49,7 +49,7 @@ CHECKS = {
         tech="exhaustive program enumeration (unranked by size) against a reference interpreter, plus a differential law"),
     "C13": dict(
         cat="model_checking", ref="4/C13",
-        text="For skeletons of 1-2 (quick) / 1-3 (thorough) tag items (object, assign, if, if/else, for, comment, raw, capture) surrounded by text pieces from a whitespace alphabet, every one of the 2^k subsets of hyphen positions (k <= 12) is rendered. A token-level reference trimmer decides the output whenever every hyphen faces non-empty literal text on the taken path; in all cases the whitespace-erased outputs with and without hyphens must coincide, and a template without hyphens must lose nothing.",
+        text="For skeletons of 1-2 (quick) / 1-3 (thorough) tag items (object, assign, if, if/else, for, comment, raw, capture) surrounded by text pieces from a whitespace alphabet, every one of the 2^k subsets of hyphen positions (k <= 12) is rendered, plus whitespace runs of 63..65537 characters next to every marker. A token-level reference trimmer decides the output whenever every hyphen faces non-empty literal text on the taken path; in all cases the whitespace-erased outputs with and without hyphens must coincide, and a template without hyphens must lose nothing.",
         note="raw/comment bodies and untaken branches are not literal text for the exact oracle; hyphens adjacent to another tag fall under the whitespace-erasure law only.",
         tech="exhaustive marker-subset enumeration over template skeletons against a token-level reference trimmer"),
     "C08": dict(
@@ -99,12 +99,12 @@ CHECKS = {
         tech="deviation-bounded exhaustive enumeration of representation assignments over a value tree with a differential oracle"),
     "C03": dict(
         cat="model_checking", ref="4/C03",
-        text="Explicit-state search over call histories: one shared world (one engine, templates parsed once, binding environments built once and shared by reference, exactly as a caller would) and the operations R(t,b) = t.Render(b). All histories of length <=2 over 14 templates x 3 environments (quick) / <=3 over 24 x 4 (thorough, 885 k histories), each replayed on a fresh world, plus 40-step round-robin histories. After every step three invariants are checked: a deep snapshot of every environment (slices up to capacity with sentinels in the spare capacity, aliased sub-slices, unexported fields, pointer identity) is unchanged; the result equals the solo result on a fresh engine, parse and bindings; the parsed render trees and the engine configuration are structurally unchanged. The number of distinct world states reached is reported (exactly one on a correct tree).",
+        text="Explicit-state search over call histories: one shared world (one engine, templates parsed once, binding environments built once and shared by reference, exactly as a caller would) and the operations R(t,b) = t.Render(b). All histories of length <=2 over 14 templates x 3 environments (quick) / <=3 over 24 x 4 (thorough, 885 k histories), each replayed on a fresh world, plus 40-step round-robin histories. After every step three invariants are checked: a deep snapshot of every environment (slices up to capacity with sentinels in the spare capacity, aliased sub-slices, unexported fields, pointer identity) is unchanged; the result equals the solo result on a fresh engine, parse and bindings; the parsed render trees and the engine configuration are structurally unchanged. A further family keeps the []byte returned by renders of 0..2^20 bytes and re-reads it after later renders. Structural changes of render trees or engine configuration are recorded, not alarmed on (the statement defines template immutability through re-render equality).",
         note="Successor = replay of the history on a fresh world + one operation (live objects cannot be cloned). Closure-captured state is visible only through the solo-equality invariant.",
         tech="explicit-state search over operation histories on the real objects with deep-snapshot invariants and a differential solo oracle"),
     "C04": dict(
         cat="model_checking", ref="4/C04",
-        text="Two complementary exhaustive explorations of the same harness bodies. (a) A hand-written cooperative scheduler runs 2-3 goroutines that parse and render on one engine, one set of parsed templates and one shared bindings map (slices, maps, Drops), switching only at scheduling points the harness owns and plants densely (an identity filter on every object, a no-op tag after every tag and object, a block, Drop.ToLiquid, every Write of the FRender writer, operation starts); every schedule with <=2 (quick) / <=3 (thorough) preemptions is executed to completion on a fresh world (deviation-bounded DFS, replay divergence is a hard error), and every operation must return its solo result with the shared bindings unchanged. (b) Because a cooperative scheduler's hand-offs are happens-before edges that blind the race detector, the same kind of bodies run free in a separate -race build: one program per standard tag, filter and operator form, rendered by 2/8/32 goroutines at GOMAXPROCS 1/4/16 on one parsed template and concurrently with a parse of its own source; any race report or result differing from sequential is a violation.",
+        text="Two complementary exhaustive explorations of the same harness bodies. (a) A hand-written cooperative scheduler runs 2-3 goroutines that parse and render on one engine, one set of parsed templates and one shared bindings map (slices, maps, Drops), switching only at scheduling points the harness owns and plants densely (an identity filter on every object, a no-op tag after every tag and object, a block, Drop.ToLiquid, every Write of the FRender writer, operation starts); every schedule with <=2 (quick) / <=3 (thorough) preemptions is executed to completion on a fresh world (deviation-bounded DFS, replay divergence is a hard error), and every operation must return its solo result with the shared bindings unchanged. (b) Because a cooperative scheduler's hand-offs are happens-before edges that blind the race detector, the same kind of bodies run free in a separate -race build: one program per standard tag, filter and operator form, rendered by 2/8/32 goroutines at GOMAXPROCS 1/4/16 on one parsed template and concurrently with a parse of its own source, every phase starting on a cold engine and including outputs beyond 64 KiB; any race report or result differing from sequential is a violation.",
         note="Granularity of (a) is 'between any two template nodes and around every expression evaluation'; finer interleavings are delegated to (b), which is complete per program only because renders contain no synchronisation (two conflicting accesses are unordered in every schedule). The statement's static check is another technique family and is not built.",
         tech="stateless model checking: preemption-bounded DFS over schedules of the real code under a controlled scheduler, plus a free-running race-detector pass over an enumerated program alphabet"),
 }
